@@ -147,7 +147,14 @@ func plainKeyText(mst string, s *seriesT) string {
 	return sb.String()
 }
 
+type savedPred struct {
+	mst string
+	p   *pnode
+	res []*reAtom
+}
+
 type runner struct {
+	prev []savedPred
 	c    *hx.Ctx
 	r    *hx.Rng
 	h    *history
@@ -244,15 +251,31 @@ func (rn *runner) genPredFor(mst string, allowRegex bool, nilPct int) (*pnode, [
 	if rn.r.Chance(nilPct) {
 		return nil, nil, nil
 	}
+	// repeat an earlier predicate of this history now and then: warm filter and cost caches
+	if allowRegex && len(rn.prev) > 0 && rn.r.Chance(25) {
+		sp := rn.prev[rn.r.Intn(len(rn.prev))]
+		if sp.mst == mst {
+			rn.c.Count("pred:repeated")
+			return sp.p, sp.res, nil
+		}
+	}
 	var res []*reAtom
 	depth := rn.r.Intn(5)
-	p := genPred(rn.r, rn.h, depth, allowRegex, &res)
+	orPct := 45
+	if rn.r.Chance(25) {
+		orPct = 0
+		depth = 1 + rn.r.Intn(3)
+	}
+	p := genPred(rn.r, rn.h, depth, allowRegex, &res, orPct)
 	var ferr error
 	p.walk(func(n *pnode) {
 		if n.re != nil && ferr == nil {
 			ferr = fillRegex(rn.h, mst, n.re, n.kind == '^')
 		}
 	})
+	if ferr == nil && allowRegex {
+		rn.prev = append(rn.prev, savedPred{mst, p, res})
+	}
 	return p, res, ferr
 }
 
@@ -289,6 +312,11 @@ func (rn *runner) opSearch(kind string) {
 		rn.c.Count("skipped:tagfilter-init-error")
 		return
 	}
+	rn.searchWith(kind, mi, p, res)
+}
+
+func (rn *runner) searchWith(kind string, mi int, p *pnode, res []*reAtom) {
+	mst := rn.h.msts[mi]
 	op := fmt.Sprintf("%s %s %s", kind, hx2(mst), predTokens(p, res))
 	var ids []uint64
 	var texts []string
@@ -356,8 +384,16 @@ func (rn *runner) opSearch(kind string) {
 		got := map[uint64]bool{}
 		unknown := 0
 		for _, t := range texts {
+			// several ids can carry one text (a deleted series that was written again):
+			// prefer the expected ones, then live ones, then deleted ones
 			cands := all[t]
-			sort.Slice(cands, func(i, j int) bool { return cands[i] < cands[j] })
+			sort.Slice(cands, func(i, j int) bool {
+				di, dj := rn.sp.deleted[cands[i]], rn.sp.deleted[cands[j]]
+				if di != dj {
+					return !di
+				}
+				return cands[i] < cands[j]
+			})
 			placed := false
 			// prefer an expected id with this text that is not taken yet
 			for _, pref := range [][]uint64{want[t], cands} {
@@ -503,16 +539,15 @@ func (rn *runner) opTagVals() {
 
 func (rn *runner) opDelete() {
 	mi := rn.r.Intn(len(rn.h.msts))
-	mst := rn.h.msts[mi]
-	p, res, ferr := rn.genPredFor(mst, false, 10)
+	p, res, ferr := rn.genPredFor(rn.h.msts[mi], false, 10)
 	if ferr != nil {
 		return
 	}
-	if p != nil {
-		if d := 0; true {
-			_ = d
-		}
-	}
+	rn.deleteWith(mi, p, res)
+}
+
+func (rn *runner) deleteWith(mi int, p *pnode, res []*reAtom) {
+	mst := rn.h.msts[mi]
 	op := fmt.Sprintf("del %s %s", hx2(mst), predTokens(p, res))
 	var err error
 	perr := hx.Safe(func() { err = rn.e.delete(mst, p) })
@@ -552,21 +587,22 @@ func (rn *runner) opDelete() {
 	}
 }
 
-func (rn *runner) runHistory(hi int, nOps int, big bool) {
+// withEnv opens a fresh index for rn.h, runs body and removes everything again.
+func (rn *runner) withEnv(tag string, body func()) {
 	c := rn.c
-	rn.h = genHistory(rn.r, big)
 	rn.sp = newSpec(rn.h)
 	rn.reop, rn.dead = false, false
+	rn.prev = nil
 	root := os.Getenv("VERIF_SCRATCH")
 	if root == "" {
 		root = "/var/tmp/c10-harness"
 	}
-	dir := filepath.Join(root, fmt.Sprintf("c10-%d-%d", os.Getpid(), hi))
+	dir := filepath.Join(root, fmt.Sprintf("c10-%d-%s", os.Getpid(), tag))
 	_ = os.RemoveAll(dir)
 	var err error
 	perr := hx.Safe(func() { rn.e, err = newEnv(dir) })
 	if perr != "" || err != nil {
-		line := rn.emit(fmt.Sprintf("open %d", hi), errText(perr, err))
+		line := rn.emit("open "+tag, errText(perr, err))
 		c.Violation(line, "", "cannot open index: "+errText(perr, err))
 		_ = os.RemoveAll(dir)
 		return
@@ -577,7 +613,17 @@ func (rn *runner) runHistory(hi int, nOps int, big bool) {
 		}
 		_ = os.RemoveAll(dir)
 	}()
-	rn.emit(fmt.Sprintf("open %d", hi), "ok")
+	rn.emit("open "+tag, "ok")
+	body()
+}
+
+func (rn *runner) runHistory(hi int, nOps int, big bool) {
+	rn.h = genHistory(rn.r, big)
+	rn.withEnv(fmt.Sprintf("%d", hi), func() { rn.runOps(nOps, big) })
+}
+
+func (rn *runner) runOps(nOps int, big bool) {
+	c := rn.c
 	c.Count(fmt.Sprintf("history:profile=%d", rn.h.profile))
 	if big {
 		c.Count("history:big")
@@ -641,6 +687,12 @@ func Run(c *hx.Ctx) error {
 	only := -1
 	if v := c.Arg("only", ""); v != "" {
 		fmt.Sscanf(v, "%d", &only)
+	}
+	if only < 0 {
+		rn.r = hx.NewRng(c.Seed)
+		for i := range directed {
+			rn.runDirected(i)
+		}
 	}
 	for hi := 0; hi < nHist; hi++ {
 		if only >= 0 && hi != only {
